@@ -83,7 +83,7 @@ pub fn build(quick: bool) -> PropRun {
         for cfg in [LwCfg::small(), LwCfg { pwin: 4096, fwin: 4096, pbase: [0xFFFFE, 5], fbase: [0xFFFF_FFFD, 9], bw: [50_000, 50_000], ..LwCfg::small() }] {
             let si = Arc::new(ScriptInfo::new(ops.clone()));
             let env = LwEnv { fates: if d == 0 { FATES_NONE } else { &[Fate::Deliver, Fate::Drop, Fate::Dup, Fate::Delay3] }, deltas: &[20], dev_rounds: if d == 0 { 0 } else { 10 }, dev_start: 0, max_rounds: window + 60, skip_choice: false, flush_choice: false,
-                              blackouts: &[], stop_when_idle: false, fair_delta: 20, slow_after: usize::MAX, slow_delta: 250, fuel: 2_000_000 };
+                              blackouts: &[], stop_when_idle: false, fair_delta: 20, slow_after: usize::MAX, slow_delta: 250, fuel: 2_000_000, shifts: &[] };
             let name = format!("C15.twin.{}|{}|{}|{}|w{}|d{}", sname, cfg.name(), si.name, env.name(), window, d);
             let run = move |ch: &mut Chooser| -> ExecResult {
                 let r = ch.free(window + 1);
